@@ -82,7 +82,10 @@ def examples(cell, tier):
     return 1
 
 
-_OPNAMES = [n for n, o in OPS.items() if "synonym" not in o.tags]
+from vcheck import catalog  # noqa: E402
+
+# catalogued operations plus the conversions / projections / embeddings (each backend wraps those through its own branch)
+_OPNAMES = [n for n, o in OPS.items() if "synonym" not in o.tags] + sorted(catalog.EXTRA_OPS) * 2
 KINDS = ("object", "np1", "np2", "flat", "jagged", "optrec", "record")
 
 
@@ -93,7 +96,7 @@ def _step(draw):
         # the operator spellings run through each backend's ufunc hook (__array_ufunc__ / Awkward behaviors), not through dispatch()
         opcall = draw(st.sampled_from(sorted(c03.OPCALLS)))
         name = c03.OPCALLS[opcall][0]
-        op = OPS[name]
+        op = catalog.get(name)
         da = draw(st.sampled_from(op.self_dims))
         db = draw(st.sampled_from(op.other_dims(da)))
         return {"kind": "operator", "op": name, "opcall": opcall, "da": da, "db": db, "elem": draw(opcheck.case_strategy(op, db, "f64", None)),
@@ -102,14 +105,14 @@ def _step(draw):
         # the exception is raised INSIDE the dispatched computation (unbroadcastable shapes, mismatching list lengths,
         # overflowing Python floats, a non-numeric scalar argument), not by the argument checks before it
         name = draw(st.sampled_from(_OPNAMES))
-        op = OPS[name]
+        op = catalog.get(name)
         da = draw(st.sampled_from(op.self_dims))
         db = draw(st.sampled_from(op.other_dims(da)))
         return {"kind": "kernel_raise", "op": name, "da": da, "db": db, "elem": draw(opcheck.case_strategy(op, db, "f64", None)),
                 "h": draw(st.integers(0, 2**30)), "how": draw(st.sampled_from(("shape", "lists", "overflow", "badscalar")))}
     if kind in ("op", "singular"):
         name = draw(st.sampled_from(_OPNAMES))
-        op = OPS[name]
+        op = catalog.get(name)
         da = draw(st.sampled_from(op.self_dims))
         db = draw(st.sampled_from(op.other_dims(da)))
         one = opcheck.case_strategy(op, db, "f64", None)
@@ -194,7 +197,7 @@ def _singular_elem(e, which, da, db):
 
 
 def _kernel_raise(step):
-    op = OPS[step["op"]]
+    op = catalog.get(step["op"])
     da, db, h, how = step["da"], step["db"], step["h"], step["how"]
     e = step["elem"]
     SA = R.SYSTEMS[da]
@@ -251,7 +254,7 @@ def run_step(step, registered=False):
     if kind == "kernel_raise":
         return _kernel_raise(step)
     if kind in ("op", "singular", "operator"):
-        op = OPS[step["op"]]
+        op = catalog.get(step["op"])
         da, db = step["da"], step["db"]
         e = step["elem"]
         if kind == "singular":
